@@ -675,21 +675,47 @@ func quoteTriggerSets(c *Ctx, pkgRel, fnName string) (ascii map[string]bool, oth
 			params[n.Name] = true
 		}
 	}
+	// locals that hold a conversion of a parameter: commaByte := byte(comma)
+	fromParam := map[string]string{}
+	ast.Inspect(d.Body, func(n ast.Node) bool {
+		if as, ok := n.(*ast.AssignStmt); ok && len(as.Lhs) == 1 && len(as.Rhs) == 1 {
+			if id, ok := as.Lhs[0].(*ast.Ident); ok {
+				rs := types.ExprString(as.Rhs[0])
+				for pn := range params {
+					if strings.Contains(rs, pn) && len(rs) < 40 {
+						fromParam[id.Name] = pn
+					}
+				}
+			}
+		}
+		return true
+	})
+	byteTest := func(e ast.Expr) {
+		if k, ok := constIntOf(info, e); ok {
+			ascii[string(rune(k))] = true
+			return
+		}
+		// c == byte(comma), or a local holding that
+		es := types.ExprString(e)
+		for pn := range params {
+			if strings.Contains(es, pn) {
+				ascii["<"+pn+">"] = true
+			}
+		}
+		if pn, ok := fromParam[es]; ok {
+			ascii["<"+pn+">"] = true
+		}
+	}
 	ast.Inspect(d.Body, func(n ast.Node) bool {
 		switch x := n.(type) {
 		case *ast.BinaryExpr:
 			if x.Op == token.EQL {
-				if k, ok := constIntOf(info, x.Y); ok {
-					ascii[string(rune(k))] = true
-				} else {
-					// c == byte(comma)
-					s := types.ExprString(x.Y)
-					for pn := range params {
-						if strings.Contains(s, pn) {
-							ascii["<"+pn+">"] = true
-						}
-					}
-				}
+				byteTest(x.Y)
+			}
+		case *ast.CaseClause:
+			// switch field[i] { case '\n', '\r', '"': … case commaByte: … }
+			for _, e := range x.List {
+				byteTest(e)
 			}
 		case *ast.CallExpr:
 			fo := resolveFuncExpr(info, x.Fun)
